@@ -145,7 +145,39 @@ pub fn hook_remaining(pairs: &[(AccountsType, Pubkey)]) -> (Vec<RemainingAccount
     (slices, rem)
 }
 
-fn rai(slices: Vec<RemainingAccountsSlice>) -> Option<RemainingAccountsInfo> {
+thread_local! {
+    /// packaging fault armed by a planning actor: the next description of remaining accounts that is built also carries a
+    /// zero-length slice of this type number (a type the instruction may or may not accept, possibly one listed already)
+    pub static RAI_FAULT: std::cell::Cell<Option<u8>> = const { std::cell::Cell::new(None) };
+}
+
+fn accounts_type_of(n: u8) -> AccountsType {
+    match n % 13 {
+        0 => AccountsType::TransferHookA,
+        1 => AccountsType::TransferHookB,
+        2 => AccountsType::TransferHookReward,
+        3 => AccountsType::TransferHookInput,
+        4 => AccountsType::TransferHookIntermediate,
+        5 => AccountsType::TransferHookOutput,
+        6 => AccountsType::SupplementalTickArrays,
+        7 => AccountsType::SupplementalTickArraysOne,
+        8 => AccountsType::SupplementalTickArraysTwo,
+        9 => AccountsType::TransferHookDepositA,
+        10 => AccountsType::TransferHookDepositB,
+        11 => AccountsType::TransferHookWithdrawalA,
+        _ => AccountsType::TransferHookWithdrawalB,
+    }
+}
+
+fn rai(mut slices: Vec<RemainingAccountsSlice>) -> Option<RemainingAccountsInfo> {
+    if let Some(t) = RAI_FAULT.with(|c| c.take()) {
+        let extra = RemainingAccountsSlice { accounts_type: accounts_type_of(t), length: 0 };
+        if t & 0x80 != 0 {
+            slices.insert(0, extra);
+        } else {
+            slices.push(extra);
+        }
+    }
     if slices.is_empty() {
         None
     } else {
